@@ -278,6 +278,7 @@ static void op_ksreal(const V &a, V &r) {  // n nout t b nsamples seed alpha_num
     LweParams *po = new_LweParams(nout, alpha, 0.25), *pi = new_LweParams(n, alpha, 0.25);
     LweKey *kin = new_LweKey(pi), *kout = new_LweKey(po);
     lweKeyGen(kin); lweKeyGen(kout);
+    if (a.size() > 8 && a[8] == 3) for (int i = 0; i < n; i++) if (kin->key[i] && (i & 1)) kin->key[i] = -1;      // 3 = a ternary source key (coefficients -1, 0, 1: the phase is linear in the key)
     // optional 9th argument: 1 = the _old generator; 2 = the key is element 0 of an array of three keys (new_LweKeySwitchKey_array), the other two
     // generated afterwards for other source secrets (keys of one array are independent objects)
     const int arr = (a.size() > 8 && a[8] == 2) ? 3 : 0;
@@ -306,7 +307,7 @@ static void op_ksreal(const V &a, V &r) {  // n nout t b nsamples seed alpha_num
         for (int i = 0; i < n; i++) {
             uint32_t y = (uint32_t) in->a[i] + prec;
             uint32_t rounded = (b * t == 32) ? y : (y >> (32 - b * t)) << (32 - b * t);
-            if (kin->key[i]) expect += (uint32_t) in->a[i] - rounded;
+            expect += (uint32_t) kin->key[i] * ((uint32_t) in->a[i] - rounded);
             for (int j = 0; j < t; j++) { uint32_t d = (y >> (32 - (j + 1) * b)) & (base - 1); if (d) { expect -= (uint32_t) e[((size_t) i * t + j) * base + d]; sume += e[((size_t) i * t + j) * base + d]; } }
         }
         uint32_t got = (uint32_t) lwePhase(res, kout) - (uint32_t) lwePhase(in, kin);
